@@ -37,7 +37,19 @@ fn gen_small_header(g: &mut Gen) -> Header {
         return h;
     }
     if g.bool() {
-        h.alg = Some(Algorithm::Assigned(*g.pick(&[iana::Algorithm::ES256, iana::Algorithm::A128GCM, iana::Algorithm::HMAC_256_256])));
+        // any registered algorithm (the whole IANA table), a private-use number or a text name
+        h.alg = Some(match g.weighted(&[6, 1, 1]) {
+            0 => {
+                let t = crate::registry::ALGORITHM;
+                let n = t[g.below(t.len())].1;
+                match <iana::Algorithm as coset::iana::EnumI64>::from_i64(n) {
+                    Some(a) => Algorithm::Assigned(a),
+                    None => Algorithm::PrivateUse(-70000),
+                }
+            }
+            1 => Algorithm::PrivateUse(-65537 - g.range_i64(0, 1000)),
+            _ => Algorithm::Text(g.text()),
+        });
     }
     if g.bool() {
         h.key_id = g.nonempty_bytes();
